@@ -37,19 +37,8 @@ pub fn run(tier: Tier) -> Outcome {
     assemble(
         "C01",
         runs,
-        &[
-            "deposit:ok:tokens_moved",
-            "withdraw:ok:tokens_moved",
-            "withdraw_all:ok:tokens_moved",
-            "borrow:ok:tokens_moved",
-            "repay_all:ok:tokens_moved",
-            "liquidate:ok",
-            "bankruptcy:ok",
-            "collect_fees:ok:tokens_moved",
-            "accrue:ok",
-            "borrow:6009",
-            "withdraw:6009",
-        ],
+        &["deposit:ok:tokens_moved", "withdraw:ok:tokens_moved", "borrow:ok:tokens_moved", "repay:ok:tokens_moved", "accrue:ok"],
+        &["withdraw_all:ok:tokens_moved", "repay_all:ok:tokens_moved", "liquidate:ok", "bankruptcy:ok", "collect_fees:ok:tokens_moved", "borrow:6009", "withdraw:6009"],
         "every action sequence up to the depth bound over the user/liquidator/fee alphabet (state-relative amounts) from every root, breadth-first with canonical-state deduplication; a class is (action kind, result code, non-vacuity tags); the oracle recomputes vault - (deposits - liabilities + fees) exactly from raw bytes before and after every committed transaction and demands the change is >= -allowance",
         vec![
             "environment model E1 (svm-lite) stands in for the Solana runtime; SPL Token / Token-2022 are the crates' native processors (v7.0.0)".into(),
